@@ -1,69 +1,100 @@
 /* ops_kernel.h: `k_run <set>.<def> <in>* / <out>*` runs the REAL C function that tools/c2lean_k.py translated,
- * on the same concrete limb-level inputs as the MiniC interpreter: validates the translation. */
+ * on the same concrete limb-level inputs as the MiniC interpreter: validates the translation.
+ * 128-bit builds answer for the sets field5x52 / scalar4x64 / ct (and the *_struct definitions when the emulated
+ * int128 is compiled in); the int64 build answers for field10x26 / scalar8x32 / ct32; anything else prints `skip`. */
 #if defined(SECP256K1_WIDEMUL_INT128)
+typedef uint64_t klimb;
+#define KFE 5
+#define KSC 4
+#define KSET_F "field5x52"
+#define KSET_S "scalar4x64"
+#define KSET_C "ct"
+#else
+typedef uint32_t klimb;
+#define KFE 10
+#define KSC 8
+#define KSET_F "field10x26"
+#define KSET_S "scalar8x32"
+#define KSET_C "ct32"
+#endif
 
 static int k_find(const char *name, char **vals) {
     int i; size_t l = strlen(name);
     for (i = 1; i < g_argc; i++) { const char *s = A(i)->s; if (!strcmp(s, "/")) break; if (!strncmp(s, name, l) && s[l] == '=') { *vals = (char*)s + l + 1; return 1; } }
     return 0;
 }
-static int k_u64s(const char *name, uint64_t *out, int n) {
+static int k_limbs(const char *name, klimb *out, int n) {
     char *v; int i; char *p;
     if (!k_find(name, &v)) return 0;
     p = v;
-    for (i = 0; i < n; i++) { out[i] = strtoull(p, &p, 16); if (i + 1 < n) { if (*p != ',') return 0; p++; } }
+    for (i = 0; i < n; i++) { out[i] = (klimb)strtoull(p, &p, 16); if (i + 1 < n) { if (*p != ',') return 0; p++; } }
     return 1;
 }
-static void out_u64s(const uint64_t *v, int n) {
-    char buf[32 * 20]; int i; size_t l = 0;
+static void out_limbs(const klimb *v, int n) {
+    char buf[40 * 20]; int i; size_t l = 0;
     for (i = 0; i < n; i++) l += (size_t)snprintf(buf + l, sizeof buf - l, "%s%llx", i ? "," : "", (unsigned long long)v[i]);
     out_str(buf);
 }
+static int k_fe(const char *pre, const char *fld, secp256k1_fe *fe) {
+    char nm[64]; snprintf(nm, sizeof nm, "%s.%s.n", pre, fld); memset(fe, 0, sizeof *fe); return k_limbs(nm, fe->n, KFE);
+}
+static int k_int(const char *pre, const char *fld, int *v) {
+    char nm[64]; klimb x[1]; snprintf(nm, sizeof nm, "%s.%s", pre, fld); if (!k_limbs(nm, x, 1)) return 0; *v = (int)x[0]; return 1;
+}
+static int k_gej(const char *pre, secp256k1_gej *p) { return k_fe(pre, "x", &p->x) && k_fe(pre, "y", &p->y) && k_fe(pre, "z", &p->z) && k_int(pre, "infinity", &p->infinity); }
+static int k_ge(const char *pre, secp256k1_ge *p) { return k_fe(pre, "x", &p->x) && k_fe(pre, "y", &p->y) && k_int(pre, "infinity", &p->infinity); }
+static void k_out_gej(const secp256k1_gej *p) { klimb i[1]; out_limbs(p->x.n, KFE); out_limbs(p->y.n, KFE); out_limbs(p->z.n, KFE); i[0] = (klimb)p->infinity; out_limbs(i, 1); }
+/* does `f` name <set>.<def> ? */
+static int k_is(const char *f, const char *set, const char *def) {
+    size_t l = strlen(set);
+    return !strncmp(f, set, l) && f[l] == '.' && !strcmp(f + l + 1, def);
+}
 static int op_k_run(void) {
-    const char *f; uint64_t a[5], b[5], r[5], s[1];
+    const char *f; klimb a[KFE], b[KFE], r[KFE], s[1]; klimb l16[2 * KSC];
+    secp256k1_fe fr, fa; secp256k1_scalar sr, sa, sb;
     if (g_argc < 1) return -1;
     f = A(0)->s;
-#if defined(SECP256K1_INT128_NATIVE)
-    if (!strcmp(f, "field5x52.fe_mul_inner") || !strcmp(f, "ct.fe_mul_inner")) {
+#if defined(SECP256K1_WIDEMUL_INT128) && !defined(SECP256K1_INT128_NATIVE)
+    /* emulated int128: only the two multiplication kernels are translated for this configuration */
+    if (k_is(f, KSET_F, "fe_mul_inner_struct")) { if (!k_limbs("a", a, KFE) || !k_limbs("b", b, KFE)) return -1; secp256k1_fe_mul_inner(r, a, b); out_limbs(r, KFE); return 1; }
+    if (k_is(f, KSET_F, "fe_sqr_inner_struct")) { if (!k_limbs("a", a, KFE)) return -1; secp256k1_fe_sqr_inner(r, a); out_limbs(r, KFE); return 1; }
+    out_str("skip");
+    return 1;
 #else
-    if (!strcmp(f, "field5x52.fe_mul_inner_struct")) {
-#endif
-        if (!k_u64s("a", a, 5) || !k_u64s("b", b, 5)) return -1;
-        secp256k1_fe_mul_inner(r, a, b); out_u64s(r, 5); return 1;
-    }
-#if defined(SECP256K1_INT128_NATIVE)
-    if (!strcmp(f, "field5x52.fe_sqr_inner") || !strcmp(f, "ct.fe_sqr_inner")) {
-#else
-    if (!strcmp(f, "field5x52.fe_sqr_inner_struct")) {
-#endif
-        if (!k_u64s("a", a, 5)) return -1;
-        secp256k1_fe_sqr_inner(r, a); out_u64s(r, 5); return 1;
-    }
-#if defined(SECP256K1_INT128_NATIVE)
-    {
-    secp256k1_fe fr, fa; secp256k1_scalar sr, sa;
-    if (!strcmp(f, "field5x52.fe_normalize") || !strcmp(f, "ct.fe_normalize")) { if (!k_u64s("r.n", fr.n, 5)) return -1; secp256k1_fe_impl_normalize(&fr); out_u64s(fr.n, 5); return 1; }
-    if (!strcmp(f, "field5x52.fe_normalize_weak")) { if (!k_u64s("r.n", fr.n, 5)) return -1; secp256k1_fe_impl_normalize_weak(&fr); out_u64s(fr.n, 5); return 1; }
-    if (!strcmp(f, "field5x52.fe_half") || !strcmp(f, "ct.fe_half")) { if (!k_u64s("r.n", fr.n, 5)) return -1; secp256k1_fe_impl_half(&fr); out_u64s(fr.n, 5); return 1; }
-    if (!strcmp(f, "field5x52.fe_add")) { if (!k_u64s("r.n", fr.n, 5) || !k_u64s("a.n", fa.n, 5)) return -1; secp256k1_fe_impl_add(&fr, &fa); out_u64s(fr.n, 5); return 1; }
-    if (!strcmp(f, "field5x52.fe_mul_int")) { if (!k_u64s("r.n", fr.n, 5) || !k_u64s("a", s, 1)) return -1; secp256k1_fe_impl_mul_int_unchecked(&fr, (int)s[0]); out_u64s(fr.n, 5); return 1; }
-    if (!strcmp(f, "ct.fe_negate")) { if (!k_u64s("a.n", fa.n, 5) || !k_u64s("m", s, 1)) return -1; secp256k1_fe_impl_negate_unchecked(&fr, &fa, (int)s[0]); out_u64s(fr.n, 5); return 1; }
-    if (!strcmp(f, "ct.fe_normalizes_to_zero")) { if (!k_u64s("r.n", fr.n, 5)) return -1; out_int(secp256k1_fe_impl_normalizes_to_zero(&fr)); return 1; }
-    if (!strcmp(f, "ct.fe_cmov")) { if (!k_u64s("r.n", fr.n, 5) || !k_u64s("a.n", fa.n, 5) || !k_u64s("flag", s, 1)) return -1; secp256k1_fe_impl_cmov(&fr, &fa, (int)s[0]); out_u64s(fr.n, 5); return 1; }
-    if (!strcmp(f, "ct.scalar_cmov")) { if (!k_u64s("r.d", sr.d, 4) || !k_u64s("a.d", sa.d, 4) || !k_u64s("flag", s, 1)) return -1; secp256k1_scalar_cmov(&sr, &sa, (int)s[0]); out_u64s(sr.d, 4); return 1; }
-    if (!strcmp(f, "ct.scalar_cond_negate")) { int rv; if (!k_u64s("r.d", sr.d, 4) || !k_u64s("flag", s, 1)) return -1; rv = secp256k1_scalar_cond_negate(&sr, (int)s[0]); out_u64s(sr.d, 4); out_str(rv == 1 ? "1" : "ffffffff"); return 1; }
-    if (!strcmp(f, "ct.scalar_negate")) { if (!k_u64s("a.d", sa.d, 4)) return -1; secp256k1_scalar_negate(&sr, &sa); out_u64s(sr.d, 4); return 1; }
-    if (!strcmp(f, "ct.scalar_add")) { secp256k1_scalar sb; int ov; if (!k_u64s("a.d", sa.d, 4) || !k_u64s("b.d", sb.d, 4)) return -1; ov = secp256k1_scalar_add(&sr, &sa, &sb); out_u64s(sr.d, 4); out_int(ov); return 1; }
-    if (!strcmp(f, "ct.scalar_is_high")) { if (!k_u64s("a.d", sa.d, 4)) return -1; out_int(secp256k1_scalar_is_high(&sa)); return 1; }
-    if (!strcmp(f, "ct.scalar_check_overflow")) { if (!k_u64s("a.d", sa.d, 4)) return -1; out_int(secp256k1_scalar_check_overflow(&sa)); return 1; }
-    if (!strcmp(f, "ct.scalar_is_zero")) { if (!k_u64s("a.d", sa.d, 4)) return -1; out_int(secp256k1_scalar_is_zero(&sa)); return 1; }
-    if (!strcmp(f, "ct.int_cmov")) { int r0, a0; uint64_t x[1], y[1]; if (!k_u64s("r", x, 1) || !k_u64s("a", y, 1) || !k_u64s("flag", s, 1)) return -1; r0 = (int)x[0]; a0 = (int)y[0]; secp256k1_int_cmov(&r0, &a0, (int)s[0]); { uint64_t o[1]; o[0] = (uint32_t)r0; out_u64s(o, 1); } return 1; }
-    }
+    if (k_is(f, KSET_F, "fe_mul_inner") || k_is(f, KSET_C, "fe_mul_inner")) { if (!k_limbs("a", a, KFE) || !k_limbs("b", b, KFE)) return -1; secp256k1_fe_mul_inner(r, a, b); out_limbs(r, KFE); return 1; }
+    if (k_is(f, KSET_F, "fe_sqr_inner") || k_is(f, KSET_C, "fe_sqr_inner")) { if (!k_limbs("a", a, KFE)) return -1; secp256k1_fe_sqr_inner(r, a); out_limbs(r, KFE); return 1; }
+    if (k_is(f, KSET_F, "fe_normalize") || k_is(f, KSET_C, "fe_normalize")) { if (!k_limbs("r.n", fr.n, KFE)) return -1; secp256k1_fe_impl_normalize(&fr); out_limbs(fr.n, KFE); return 1; }
+    if (k_is(f, KSET_F, "fe_normalize_weak")) { if (!k_limbs("r.n", fr.n, KFE)) return -1; secp256k1_fe_impl_normalize_weak(&fr); out_limbs(fr.n, KFE); return 1; }
+    if (k_is(f, KSET_F, "fe_half") || k_is(f, KSET_C, "fe_half")) { if (!k_limbs("r.n", fr.n, KFE)) return -1; secp256k1_fe_impl_half(&fr); out_limbs(fr.n, KFE); return 1; }
+    if (k_is(f, KSET_F, "fe_add")) { if (!k_limbs("r.n", fr.n, KFE) || !k_limbs("a.n", fa.n, KFE)) return -1; secp256k1_fe_impl_add(&fr, &fa); out_limbs(fr.n, KFE); return 1; }
+    if (k_is(f, KSET_F, "fe_mul_int")) { if (!k_limbs("r.n", fr.n, KFE) || !k_limbs("a", s, 1)) return -1; secp256k1_fe_impl_mul_int_unchecked(&fr, (int)s[0]); out_limbs(fr.n, KFE); return 1; }
+    if (k_is(f, KSET_F, "fe_negate") || k_is(f, KSET_C, "fe_negate")) { if (!k_limbs("a.n", fa.n, KFE) || !k_limbs("m", s, 1)) return -1; secp256k1_fe_impl_negate_unchecked(&fr, &fa, (int)s[0]); out_limbs(fr.n, KFE); return 1; }
+    if (k_is(f, KSET_C, "fe_normalizes_to_zero")) { if (!k_limbs("r.n", fr.n, KFE)) return -1; out_int(secp256k1_fe_impl_normalizes_to_zero(&fr)); return 1; }
+    if (k_is(f, KSET_C, "fe_cmov")) { if (!k_limbs("r.n", fr.n, KFE) || !k_limbs("a.n", fa.n, KFE) || !k_limbs("flag", s, 1)) return -1; secp256k1_fe_impl_cmov(&fr, &fa, (int)s[0]); out_limbs(fr.n, KFE); return 1; }
+    if (k_is(f, KSET_C, "scalar_cmov")) { if (!k_limbs("r.d", sr.d, KSC) || !k_limbs("a.d", sa.d, KSC) || !k_limbs("flag", s, 1)) return -1; secp256k1_scalar_cmov(&sr, &sa, (int)s[0]); out_limbs(sr.d, KSC); return 1; }
+    if (k_is(f, KSET_C, "scalar_cond_negate")) { int rv; if (!k_limbs("r.d", sr.d, KSC) || !k_limbs("flag", s, 1)) return -1; rv = secp256k1_scalar_cond_negate(&sr, (int)s[0]); out_limbs(sr.d, KSC); out_str(rv == 1 ? "1" : "ffffffff"); return 1; }
+    if (k_is(f, KSET_C, "scalar_negate") || k_is(f, KSET_S, "scalar_negate")) { if (!k_limbs("a.d", sa.d, KSC)) return -1; secp256k1_scalar_negate(&sr, &sa); out_limbs(sr.d, KSC); return 1; }
+    if (k_is(f, KSET_C, "scalar_add") || k_is(f, KSET_S, "scalar_add")) { int ov; if (!k_limbs("a.d", sa.d, KSC) || !k_limbs("b.d", sb.d, KSC)) return -1; ov = secp256k1_scalar_add(&sr, &sa, &sb); out_limbs(sr.d, KSC); out_int(ov); return 1; }
+    if (k_is(f, KSET_C, "scalar_is_high")) { if (!k_limbs("a.d", sa.d, KSC)) return -1; out_int(secp256k1_scalar_is_high(&sa)); return 1; }
+    if (k_is(f, KSET_C, "scalar_check_overflow")) { if (!k_limbs("a.d", sa.d, KSC)) return -1; out_int(secp256k1_scalar_check_overflow(&sa)); return 1; }
+    if (k_is(f, KSET_C, "scalar_is_zero")) { if (!k_limbs("a.d", sa.d, KSC)) return -1; out_int(secp256k1_scalar_is_zero(&sa)); return 1; }
+    if (k_is(f, KSET_C, "int_cmov")) { int r0, a0; klimb x[1], y[1]; if (!k_limbs("r", x, 1) || !k_limbs("a", y, 1) || !k_limbs("flag", s, 1)) return -1; r0 = (int)x[0]; a0 = (int)y[0]; secp256k1_int_cmov(&r0, &a0, (int)s[0]); { klimb o[1]; o[0] = (klimb)(uint32_t)r0; out_limbs(o, 1); } return 1; }
+    if (k_is(f, KSET_S, "scalar_mul_512")) { if (!k_limbs("a.d", sa.d, KSC) || !k_limbs("b.d", sb.d, KSC)) return -1; secp256k1_scalar_mul_512(l16, &sa, &sb); out_limbs(l16, 2 * KSC); return 1; }
+    if (k_is(f, KSET_S, "scalar_reduce_512")) { if (!k_limbs("l", l16, 2 * KSC)) return -1; secp256k1_scalar_reduce_512(&sr, l16); out_limbs(sr.d, KSC); return 1; }
+    if (k_is(f, KSET_S, "scalar_mul")) { if (!k_limbs("a.d", sa.d, KSC) || !k_limbs("b.d", sb.d, KSC)) return -1; secp256k1_scalar_mul(&sr, &sa, &sb); out_limbs(sr.d, KSC); return 1; }
+    if (k_is(f, KSET_S, "scalar_half")) { if (!k_limbs("a.d", sa.d, KSC)) return -1; secp256k1_scalar_half(&sr, &sa); out_limbs(sr.d, KSC); return 1; }
+    if (k_is(f, KSET_S, "scalar_cadd_bit")) { klimb bit[1]; if (!k_limbs("r.d", sr.d, KSC) || !k_limbs("bit", bit, 1) || !k_limbs("flag", s, 1)) return -1; secp256k1_scalar_cadd_bit(&sr, (unsigned int)bit[0], (int)s[0]); out_limbs(sr.d, KSC); return 1; }
+#ifndef VERIFY
+    /* group-level primitives (the VERIFY build carries magnitude fields that a limb-level input cannot set consistently) */
+    if (k_is(f, KSET_C, "gej_add_ge")) { secp256k1_gej ga, gr; secp256k1_ge gb; if (!k_gej("a", &ga) || !k_ge("b", &gb)) return -1; secp256k1_gej_add_ge(&gr, &ga, &gb); k_out_gej(&gr); return 1; }
+    if (k_is(f, KSET_C, "gej_double")) { secp256k1_gej ga, gr; if (!k_gej("a", &ga)) return -1; secp256k1_gej_double(&gr, &ga); k_out_gej(&gr); return 1; }
+    if (k_is(f, KSET_C, "gej_neg")) { secp256k1_gej ga, gr; if (!k_gej("a", &ga)) return -1; secp256k1_gej_neg(&gr, &ga); k_out_gej(&gr); return 1; }
+    if (k_is(f, KSET_C, "ge_to_storage")) { secp256k1_ge ga; secp256k1_ge_storage st; if (!k_ge("a", &ga)) return -1; secp256k1_ge_to_storage(&st, &ga); out_limbs(st.x.n, (int)(sizeof st.x.n / sizeof st.x.n[0])); out_limbs(st.y.n, (int)(sizeof st.y.n / sizeof st.y.n[0])); return 1; }
+    if (k_is(f, KSET_C, "fe_get_b32")) { unsigned char b32[32]; klimb o[32]; int i; if (!k_limbs("a.n", fa.n, KFE)) return -1; secp256k1_fe_impl_get_b32(b32, &fa); for (i = 0; i < 32; i++) o[i] = b32[i]; out_limbs(o, 32); return 1; }
+    if (k_is(f, KSET_C, "scalar_mul")) { if (!k_limbs("a.d", sa.d, KSC) || !k_limbs("b.d", sb.d, KSC)) return -1; secp256k1_scalar_mul(&sr, &sa, &sb); out_limbs(sr.d, KSC); return 1; }
 #endif
     out_str("skip");
     return 1;
+#endif
 }
 static int ops_kernel(const char *op) { if (!strcmp(op, "k_run")) return op_k_run(); return 0; }
-#else
-static int ops_kernel(const char *op) { if (!strcmp(op, "k_run")) { out_str("skip"); return 1; } return 0; }
-#endif
